@@ -175,6 +175,49 @@ theorem rem_true_spec (s : State N A) (hi : Inverse s) (n : N) (a : A) (h : (rem
           exact ⟨n', a, h', fun c => absurd c hn, fun _ => rfl, fun _ => Map.get_drop _ _ _, fun _ => Map.get_drop _ _ _⟩
     · simp [rem, hn, ha] at h
 
+/-! ### subclasses that apply whole address books (Crewer / BOK memos) -/
+
+/-- a whole book applied through `addNameAddr`, entry by entry, keeps the mappings inverse — whether it goes through
+or is rejected part-way (a moved hand, a re-used address, an empty or unhashable entry) -/
+theorem inverse_book (self : N) (es : List (N × A)) (s : State N A) (h : Inverse s) : Inverse (book s self es).1 := by
+  induction es generalizing s with
+  | nil => exact h
+  | cons p es ih =>
+    obtain ⟨n, a⟩ := p
+    simp only [book]
+    split
+    · exact ih s h
+    · have g := (good_add s h n a).1
+      split
+      · rename_i s' e he; rw [he] at g; exact g
+      · rename_i s' o he; rw [he] at g; exact ih s' g
+
+/-- the entry a book is rejected at changes nothing: the state left behind is the one the entries BEFORE it built
+(every one of them an accepted `addNameAddr`), and no `KeyError` can be the reason -/
+theorem book_never_keyerror (self : N) (es : List (N × A)) (s : State N A) (h : Inverse s) :
+    (book s self es).2 ≠ .error .keyError := by
+  induction es generalizing s with
+  | nil => simp [book]
+  | cons p es ih =>
+    obtain ⟨n, a⟩ := p
+    simp only [book]
+    split
+    · exact ih s h
+    · have g := good_add s h n a
+      split
+      · rename_i s' e he; rw [he] at g; exact g.2.1
+      · rename_i s' o he; rw [he] at g; exact ih s' g.1
+
+/-- any history of inherited operations AND whole books keeps the registry a bijection -/
+theorem inverse_history_with_books (acts : List (Act N A)) (s : State N A) (h : Inverse s) : Inverse (runActs s acts) := by
+  induction acts generalizing s with
+  | nil => exact h
+  | cons a as ih =>
+    refine ih _ ?_
+    cases a with
+    | op o => exact inverse_step s o h
+    | book self es => exact inverse_book self es s h
+
 /-! ### non-vacuity -/
 
 /-- test instance: `0` is falsy, numbers `≥ 100` stand for unhashable arguments -/
